@@ -116,14 +116,24 @@ theorem C10_cex_orderByReserved (h : orderByReparsesText = true) : orderByOk tru
 
 /-- an ORDER BY on the normalised name finds the select item aliased to the display name when the engine's
     own (ASCII-only) case folding identifies the two -/
-theorem C10_orderBy_alias (display normalised : List Char) (h : H_asciiFold display normalised) :
-    aliasVisible display normalised = true := by
-  unfold aliasVisible; rw [h]; simp
+theorem C10_orderBy_alias (bare : Bool) (display normalised : List Char) (h : H_asciiFold bare display normalised) :
+    orderKeyVisible bare display normalised = true := by
+  unfold orderKeyVisible
+  rcases h with h | ⟨h, hb⟩ | h
+  · rw [h]
+  · rw [h]; simp [hb]
+  · cases orderByRespell <;> simp [aliasVisible, h]
 
-/-- why H_asciiFold is a hypothesis: `withColumnRenamed('v', 'Éa').orderBy(col('éa'))` -/
-theorem C10_cex_asciiFold : aliasVisible "Éa".toList "éa".toList = false := by decide
+/-- why H_asciiFold is a hypothesis: `withColumnRenamed('v', 'Éa').orderBy(col('éa') + 1)` — the key is an
+    expression, so its column keeps the normalised spelling next to the alias "Éa" -/
+theorem C10_cex_asciiFold (h : orderByRespell ≠ .all) : orderKeyVisible false "Éa".toList "éa".toList = false := by
+  unfold orderKeyVisible
+  cases hr : orderByRespell with
+  | all => exact absurd hr h
+  | bare => decide
+  | none => decide
 
-example : H_asciiFold "New Name".toList "new name".toList := by decide
+example : H_asciiFold false "New Name".toList "new name".toList := Or.inr (Or.inr (by decide))
 
 -- ------------------------------------------------------------------------------------------------
 -- a concrete, computable instance of the name functions (Spark-like on the names used below)
